@@ -112,9 +112,15 @@ Failed(m, n, ev, okModel, cf, modelConnected) ==
           [] x = "C10-StreamManagementLeftOver" ->
                 /\ cf /\ ~m.sm /\ ~p.smEnabled /\ ~p.smResumed
                 /\ \E i \in DOMAIN ev.out : ev.out[i].k \in {"SmReq", "SmAck"}
+          \* a new connection -- opened by the application or by following a redirect within this
+          \* step -- starts from scratch: its last output is the stream header, nothing of the
+          \* previous connection is left (the pending-redirect marker included)
           [] x = "C10-StaleStateOnNewStream" ->
-                /\ ev.e = "Connect" /\ ~ev.hang /\ p.sock = "On"
-                /\ ~( /\ Len(out) = 1 /\ out[1].k = "StreamOpen" /\ ~out[1].enc
+                /\ \/ ev.e = "Connect" /\ ~ev.hang
+                   \/ ev.e = "SeeOtherHost" /\ p.conn # m.conn
+                /\ p.sock = "On"
+                /\ ~( /\ Len(out) >= 1 /\ out[Len(out)].k = "StreamOpen" /\ ~out[Len(out)].enc
+                      /\ (ev.e = "Connect" => Len(out) = 1)
                       /\ p.lst = "Core" /\ p.ver = "none" /\ ~p.enc /\ ~p.authed /\ ~p.session
                       /\ ~p.smEnabled /\ ~p.smResumed /\ ~p.redirect )}
 
